@@ -283,12 +283,21 @@ def _expand_selector_locals(run, fx, opbase, site: "OpSite") -> Optional[List["O
     for p in paths:
         env: Dict[str, ast.expr] = {}
         conds: List[ast.expr] = []
+        infeasible = False
         for a_, b_ in zip(p, p[1:]):
             st = cfg.stmt.get(a_)
             if st is None:
                 continue
             if cfg.label.get(a_) in ("If", "While") and isinstance(st, ast.expr):
                 kinds = cfg.g[a_][b_]["kinds"]
+                # a test of a selector local against None is decided by what this path assigned to it: infeasible paths are dropped
+                if isinstance(st, ast.Compare) and len(st.ops) == 1 and isinstance(st.ops[0], (ast.Is, ast.IsNot)) and isinstance(st.left, ast.Name) \
+                        and st.left.id in env and isinstance(st.comparators[0], ast.Constant) and st.comparators[0].value is None:
+                    is_none = isinstance(env[st.left.id], ast.Constant) and env[st.left.id].value is None
+                    truth = is_none if isinstance(st.ops[0], ast.Is) else not is_none
+                    if ("true" in kinds and "false" not in kinds and not truth) or ("false" in kinds and "true" not in kinds and truth):
+                        infeasible = True
+                        break
                 if "true" in kinds and "false" not in kinds:
                     conds.extend(st.values if isinstance(st, ast.BoolOp) and isinstance(st.op, ast.And) else [st])
                 elif "false" in kinds and "true" not in kinds:
@@ -307,6 +316,8 @@ def _expand_selector_locals(run, fx, opbase, site: "OpSite") -> Optional[List["O
                     return None
             elif isinstance(st, (ast.AugAssign, ast.For, ast.With)) and any(isinstance(x, ast.Name) and x.id in sel and isinstance(x.ctx, ast.Store) for x in ast.walk(st)):
                 return None
+        if infeasible:
+            continue
         if not all(k in env for k in sel):
             return None
         op_expr = env.get(site.op_expr.id, site.op_expr) if isinstance(site.op_expr, ast.Name) else site.op_expr
